@@ -64,6 +64,12 @@ def gen_c16(rng, tier, n):
                 lines.append("cleartype %d" % rng.choice(names))
             else:
                 lines.append(_replay(rng, names, j))
+        if rng.random() < 0.15 and len(names) >= 3:
+            # raw upcasters that return, instead of their declared target, the source of the next one: the registered
+            # graph stays acyclic (all edges point to one sink) while the returned types go round in a ring of 2 or 3
+            k = rng.choice([2, 3]); ring = rng.sample(names, k); sink = rng.choice([t for t in names if t not in ring] or [ring[0]])
+            for j, a in enumerate(ring):
+                lines.append("reg %d %d %d 0 %d 0" % (a, sink, ring[(j + 1) % k], 60 + j))
         for t in names:
             lines.append("replay 9 9 %d 1 %d" % (t, rng.choice([0, 0, 4])))
         cases.append(lines)
@@ -86,8 +92,13 @@ def gen_c17(rng, tier, n):
             lines.append("reg %d %d %d %d %d 0" % (a, b, b if ret is None else ret, fails, tag[0]))
         failpos = rng.randint(0, k) if rng.random() < 0.6 else -1
         if shape == "chain":
+            clr = rng.randrange(k - 1) if rng.random() < 0.35 else -1
             for j in range(k - 1):
+                if j == clr:
+                    tag[0] = 199 + j      # tag >= 200: this step races a ClearUpcasts against its own chain
                 reg(names[j], names[j + 1], 1 if j == failpos else 0)
+                if j == clr:
+                    tag[0] = 10 + j
         elif shape == "branch":
             for j in range(1, k):
                 reg(names[rng.randint(0, j - 1)], names[j], 1 if j == failpos else 0)
